@@ -35,6 +35,7 @@ package daemon
 //@   # a configuration that passes validation has at most ten security groups and a supported IP stack
 //@   ensures result == nil ==> len(c.SecurityGroups) <= 10 && (c.IPStack == "" || c.IPStack == "ipv4" || c.IPStack == "dual")
 
+//@ for C15 C18 C20
 //@ # number of distinct security groups a configuration names (single group plus list)
 //@ pure func sgCount(c *Config) int
 
@@ -50,7 +51,7 @@ package daemon
 //@   requires client != nil
 //@   panics
 //@   ensures result1 == nil ==> result0 != nil && sgCount(result0) <= 10
-//@ for C15 C20
+//@ for C15 C18 C20
 
 //@ func Config.GetVSwitchIDs
 //@   requires c != nil
